@@ -142,3 +142,14 @@ def _replace_if_safeds_keyword(keyword: str) -> str:
 def _escape_comment_text(text: str) -> str:
     # A "*/" inside the text would end the surrounding Safe-DS comment too early
     return text.replace("*/", "*\\/")
+
+
+def _escape_string_content(text: str) -> str:
+    # Safe-DS string literals end at an unescaped quotation mark and must not contain a raw line break
+    return (
+        text.replace("\\", "\\\\")
+        .replace('"', '\\"')
+        .replace("\n", "\\n")
+        .replace("\r", "\\r")
+        .replace("\t", "\\t")
+    )
